@@ -55,8 +55,9 @@ class ExternalImportFilter:
 
     def _is_internal_import(self, i: Import) -> bool:
         importee = i.importee()
+        root_module = self._root_module_name.rstrip(".")
 
-        return importee.startswith(self._root_module_name)
+        return importee == root_module or importee.startswith(root_module + ".")
 
     def _is_internal_or_retained_external_import(self, i: Import) -> bool:
         if self._is_internal_import(i):
